@@ -53,6 +53,7 @@ func checkC12(c *Ctx) (string, error) {
 	c.Rule("R12.1", "program entry: interpreter start, runtime init, type-table init, the runtime package's init hook, main's init, main.main - in that order, each bound to the right symbol", 7)
 	c.Rule("R12.2", "overlaid packages: the original init is renamed and chained from the overlay's init exactly when it exists; deferred function bodies compile under the package state they were declared in", 6)
 
+	checkInitStubLinkage(c, bp)
 	// ---------------- R12.1
 	ef := findFunc(bp, "defineEntryFunction")
 	gm := findFunc(bp, "genMainModule")
